@@ -51,6 +51,21 @@ void harness(void)
     }
     q[VF_L + 1] = 0;
 
+#ifdef VF_TWICE
+    /* C13 at leaf level: an earlier lookup of another (symbolic) label must not influence this one */
+    {
+        unsigned char q0[VF_L + 2];
+        unsigned n0 = nondet_uint();
+        VF_ASSUME(n0 <= VF_L + 1);
+        for (unsigned j = 0; j < VF_L + 1; j++) {
+            unsigned char c0 = nondet_uchar();
+            VF_ASSUME(c0 != 0 && c0 < 0x80);
+            q0[j] = (j < n0) ? c0 : 0;
+        }
+        q0[VF_L + 1] = 0;
+        (void) is_tld((const char *) q0, (const char *) q0 + n0);
+    }
+#endif
     int rc = is_tld((const char *) q, (const char *) q + n);
 
     int want = -EEAV_TLD_INVALID;
